@@ -1,24 +1,97 @@
+import json
+
 import vf
+
+# Two harness runs feed one correspondence: package index (exported rewrites + indexData.simplify +
+# reference-evaluator oracle and its tie to the model's eval; TestVerifC05E2E additionally compares the
+# real indexData.Search on a built compound shard with the reference evaluator) and package query (unexported
+# evalConstants / flatten / stripCaseScopes with the parse-time node kinds + valuation oracle).
+HARNESSES = [
+    dict(pkg_dir="index", run="TestVerifC05(E2E)?$", files=["index/zz_verif_c05_test.go", "index/zz_verif_c05e2e_test.go"], n_quick=150, n_thorough=4000, out="out-index.jsonl"),
+    dict(pkg_dir="query", run="TestVerifC05Q$", files=["query/zz_verif_c05q_test.go"], n_quick=60, n_thorough=2000, out="out-query.jsonl"),
+]
+RUNNER = dict(imports=["From ZV Require Import Lib.Base Model.Query Model.QueryStd."], case_type="c05case",
+              mismatch_fn="c05_mismatches", shard=800)
 
 SPEC = dict(
     level="proof",
-    harness=dict(pkg_dir="index", run="TestVerifC05$", files=["index/zz_verif_c05_test.go"],
-                 n_quick=250, n_thorough=4000),
-    runner=dict(imports=["From ZV Require Import Lib.Base Model.Query Model.QueryStd."], case_type="c05case",
-                mismatch_fn="c05_mismatches", shard=300),
-    rule="random query trees (depth 1-4 plus same-kind nesting towers; all node kinds reachable from package index; empty/nil/"
-         "single-child And/Or, Const under Not/Type/Boost, empty patterns/sets/bitmaps, OpEmptyMatch regexps, RawConfig > 8 bit, "
-         "false-valued RepoSet entries) x random shard metadata (0-4 repos, tombstones, rawconfig, metadata, LanguageMap) and a "
-         "4-6 document corpus; each tree goes through query.Simplify, query.Map(ExpandFileContent) and indexData.simplify; "
-         "non-trivial = the rewrite changed the tree and the tree has >= 3 nodes.",
-    trusted_base=["correspondence harness harness/overlay/index/zz_verif_c05_test.go (generator, canonical rendering of query.Q as a Coq term, Go reference evaluator)",
-                  "regexp engines, substring/symbol/language matching are abstract atom predicates (theorems quantify over them); "
-                  "the shard's regexp verdicts are fed to the model as a table computed by the real engine",
+    rule="random query trees (depth 1-4 plus same-kind nesting towers; every node kind of package query incl. caseQ/caseScopeQ; "
+         "empty/nil/single-child And/Or, Const under Not/Type/Boost, empty patterns/sets/bitmaps, OpEmptyMatch regexps, RawConfig > 8 bit, "
+         "false-valued RepoSet entries, exact/non-exact empty Branch) x random shard metadata (0-4 repos, tombstones, rawconfig, metadata, "
+         "LanguageMap) and a 4-6 document corpus; each tree goes through query.Simplify, query.Map(ExpandFileContent), indexData.simplify "
+         "(package index) and evalConstants, one flatten round, stripCaseScopes (package query); the output trees are compared with the "
+         "model's; every 4th tree also compares the Go reference evaluator with the model's eval document by document. "
+         "non-trivial = the rewrite changed the tree and the tree has >= 3 nodes. End-to-end oracle: the same number of trees through the real "
+         "indexData.Search on a compound shard built from the world (tombstones applied) vs the reference evaluator on the original tree.",
+    trusted_base=["correspondence harnesses harness/overlay/index/zz_verif_c05_test.go and harness/overlay/query/zz_verif_c05q_test.go "
+                  "(generators, canonical rendering of query.Q as a Coq term, Go reference evaluator / valuation oracle)",
+                  "the reference evaluator Model/Query.v:eval as the definition of the meaning of a query (atoms abstract: substring/regexp/"
+                  "symbol/language matching are parameters; its concrete instance Model/QueryStd.v is compared with the Go oracle's evaluator)",
+                  "regexp verdicts on repository names / metadata values are fed to the model as a table computed by the real engine",
                   "IndexFeatureVersion >= 12 (the < 12 language fallback of indexData.simplify is not modelled)"],
     assumptions=["atoms_ok: empty substring pattern / OpEmptyMatch regexp / empty non-exact branch pattern match every document",
-                 "per-shard theorem: document belongs to a non-tombstoned repository of the shard (Search skips the others); "
-                 "LanguageMap has a key for every document's language"],
+                 "(the last law needs every document to be on >= 1 branch: guaranteed by the indexer commands, not enforced by ShardBuilder.Add)",
+                 "per-shard theorem: the document belongs to a non-tombstoned repository of the shard (Search skips the others) and "
+                 "LanguageMap has a key for the document's language"],
 )
 
+
 def run(ctx):
-    return vf.standard_check(ctx, SPEC)
+    pid = ctx.pid
+    proofs = vf.coq_props(ctx, pid)
+    broken, failures = [], []
+    aok, aout = vf.audit()
+    if not aok:
+        proofs["ok"] = False
+        proofs["discharged"] = 0
+        broken.append("audit: the development contains Admitted/Axiom/Parameter or disables a kernel check: " + aout[-800:])
+    if ctx.tier == "thorough" and proofs["ok"]:
+        cok, cout = vf.coqchk(pid)
+        proofs["coqchk"] = cout[-1500:]
+        if not cok:
+            proofs["ok"] = False
+            broken.append("coqchk rejects Props/%s.vo: %s" % (pid, cout[-800:]))
+    if not proofs["ok"]:
+        broken.append("proof obligations of Props/%s.v do not check: %s" % (
+            pid, (proofs.get("broken_files") or proofs.get("nonstd_axioms") or proofs["log"][-800:])))
+    cases, infos = [], []
+    for h in HARNESSES:
+        n = ctx.n(h["n_quick"], h["n_thorough"])
+        hr = vf.go_harness(ctx, h["pkg_dir"], h["run"], h["files"], n, out_name=h["out"],
+                           timeout=900 if ctx.tier == "quick" else 3600)
+        got = [r for r in hr["records"] if r.get("kind") == "case"]
+        cases += got
+        for r in hr["records"]:
+            if r.get("kind") == "oracle_fail":
+                failures.append(dict(key=r.get("key", "?"), what=r.get("what", ""), replay=r.get("replay")))
+            elif r.get("kind") == "info":
+                infos.append({k: v for k, v in r.items() if k != "kind"})
+        if hr["rc"] != 0:
+            broken.append("harness %s failed (rc=%d): %s" % (h["run"], hr["rc"], hr["log"][-1500:]))
+        elif not got:
+            broken.append("harness %s produced no cases" % h["run"])
+    ev = dict(ok=True, bad=[], evaluated=0, log="")
+    if cases:
+        ev = vf.coq_eval_cases(ctx, pid, RUNNER["imports"], RUNNER["case_type"], RUNNER["mismatch_fn"],
+                               [c["coq"] for c in cases], shard=RUNNER["shard"])
+        if not ev["ok"]:
+            broken.append("model evaluation failed: " + ev["log"][-1500:])
+        for i in ev["bad"][:20]:
+            broken.append("correspondence %s: model and implementation disagree on case %s" % (
+                RUNNER["mismatch_fn"], json.dumps(cases[i].get("sample"), default=str)[:1500]))
+    cov = dict(
+        evaluations=len(cases),
+        distinct_nontrivial=vf.distinct_nontrivial(cases),
+        rule=SPEC["rule"],
+        samples=[c.get("sample") for c in cases[:3]] or [],
+        traces_validated_against_impl=ev["evaluated"],
+        correspondence_mismatches=len(ev["bad"]),
+        oracle_failures=len(failures),
+        input_distribution=vf.histogram(cases, "class"),
+        trusted_base=SPEC["trusted_base"],
+    )
+    if proofs.get("coqchk"):
+        cov["coqchk"] = proofs["coqchk"]
+    if infos:
+        cov["info"] = infos
+    return vf.finish(ctx, SPEC["level"], proofs, cov, failures=failures, broken=broken, assumptions=SPEC["assumptions"])
